@@ -151,6 +151,10 @@ def run(index, tier="quick", seed=0) -> Result:
     pmod = index.module("coxeter.shapes.polygon")
     al = pmod.functions.get("_align_points_by_normal")
     if al is None:
+        # (the helper may live in another module of the package)
+        cands_ = [m_.functions["_align_points_by_normal"] for m_ in index.modules.values() if "_align_points_by_normal" in m_.functions]
+        al = cands_[0] if len(cands_) == 1 else None
+    if al is None:
         raise AnalysisError("anchor vanished: _align_points_by_normal")
     it = Interp(index)
     r = it.run_entry(al, None)
